@@ -1,7 +1,15 @@
 """C09 — SRR reconstruction follows its geometric model: pewlib.srr.srr.SRRLaser (check_config_valid, get,
 krisskross), pewlib.srr.config.SRRConfig, pewlib.process.calc.subpixel_offset against PewModel/Srr.lean
 (mechanism `validForData`, `krisskross`, `getFlat`, `getLayer`, `SrrConfig.fromArray ∘ toArray`;
-specification `voxel`, `flatSpec`)."""
+specification `voxel`, `flatSpec`).
+
+Case kinds: a reconstruction of one fresh (stack, config) pair (default); "cfg" = the configuration alone (a history of
+offset lists given to one SRRConfig object, denominators up to 30, against `SrrConfig.make` and the statement of
+offsets_setter_exact / srrconfig_roundtrip, driver op c09.config); "history" = reconstruct, change the SAME SRRLaser object
+(layer of `laser.data` replaced / edited in place, config replaced / changed by its setters), reconstruct again - both
+states are compared with the model/specification of the stack and config the object holds at that moment."""
+import copy
+import math
 import sys
 from fractions import Fraction
 
@@ -9,10 +17,57 @@ import numpy as np
 
 from harness import core
 from harness.core import Prop, outcome, rat, unrat
-from harness.c10 import fclose, float_mag, gen_srr, make_srr_cfg, srr_cfg_json, stack_shapes
+from harness.c10 import fclose, float_mag, gen_pairs, gen_srr, int_mag_triple, make_srr_cfg, srr_cfg_json, stack_shapes
 
 NAMES = ["A", "B", "C"]
 FLAT_REL = 1e-12
+CFG_MAXDEN = 30  # config-only stream: denominators 1..30 (no reconstruction, so the lcm^2 growth does not matter)
+CFG_BATCH = 250  # offset lists per enumerated config-only case
+
+
+def pairs_ok(pairs):
+    """hypothesis of offsets_setter_exact / srrconfig_roundtrip (non-empty, numerators >= 0, denominators >= 1) and
+    everything well inside int64"""
+    if not isinstance(pairs, list) or not pairs:
+        return False
+    for p in pairs:
+        if not (isinstance(p, list) and len(p) == 2 and all(isinstance(v, int) and not isinstance(v, bool) for v in p)):
+            return False
+        if p[0] < 0 or p[1] < 1:
+            return False
+    return math.lcm(*[d for _, d in pairs]) * max(1, max(o for o, _ in pairs)) < 2**60
+
+
+def int_rows(a):
+    """the rows [stored, size] of a `subpixel_offsets` array as Python ints, None if it is not such an array"""
+    a = np.asarray(a)
+    if a.ndim != 2 or a.shape[1] != 2 or a.dtype.kind not in "iu":
+        return None
+    return [[int(v) for v in row] for row in a]
+
+
+def gen_cfg_pairs(rng, maxden=CFG_MAXDEN):
+    """an offset list of length 1..4 with denominators 1..maxden: common / mixed / related denominators, numerators
+    below the denominator or up to twice it, first offset zero or not"""
+    k = rng.choice([1, 2, 2, 3, 3, 4])
+    mode = rng.choice(["mixed", "mixed", "common", "multiples", "high"])
+    den0 = rng.randint(1, maxden)
+    pairs = []
+    for _ in range(k):
+        if mode == "common":
+            den = den0
+        elif mode == "multiples":
+            base = rng.randint(1, max(1, maxden // 3))
+            den = base * rng.randint(1, maxden // base)
+        elif mode == "high":
+            den = rng.randint(max(1, maxden // 3), maxden)
+        else:
+            den = rng.randint(1, maxden)
+        num = rng.randint(0, den - 1) if rng.random() < 0.8 else rng.randint(den, 2 * den)
+        pairs.append([num, den])
+    if rng.random() < 0.3:
+        pairs[0][0] = 0
+    return pairs
 
 
 def tokens(a):
@@ -62,28 +117,48 @@ def flat_close(vals, rats):
 class C09(Prop):
     id = "C09"
     anchored = ["src/pewlib/srr/srr.py", "src/pewlib/srr/config.py", "src/pewlib/process/calc.py"]
-    cases = {"quick": 260, "thorough": 12000}
+    cases = {"quick": 380, "thorough": 13000}
     rule = ("crossed stacks of 2..5 layers (layer i has the shape of layer i mod 2), 1..6 lines, samples = warm-up + needed + excess "
             "0..7 (or 1-2 short / negative warm-up: the validity check must then not accept something that cannot be reconstructed), "
             "magnification 1..4 realised by (spotsize, speed, scantime) triples incl. binary-inexact values whose float quotient is the "
             "integer, warm-up 0..5 samples given in seconds (exact, fractional, exact rounding tie), 1..4 offsets with denominators "
             "1..6, first offset zero or not, 1..3 elements, every sample a unique integer token. Non-trivial = accepted and reconstructed; "
-            "rejected stacks still exercise the validity check, layer reads and the round trip; distinct by canonical case hash")
+            "rejected stacks still exercise the validity check, layer reads and the round trip; distinct by canonical case hash. "
+            "Config-only cases (feature cfg-only, ~22 % of the generated cases + enumerations in targeted()): no stack, one SRRConfig "
+            "object that is given 1..8 offset lists one after the other (constructor, then the setter), lists of length 1..4 with "
+            "denominators 1..30 (common, mixed, multiples of each other), magnification 1..12; after each assignment the public getters "
+            "(subpixel_offsets rows, subpixels_per_pixel, warmup) and the to_array/from_array round trip are compared with the model's "
+            "exact setter and the statement of offsets_setter_exact is evaluated on the reported rows; enumerated: every single offset "
+            "n/d with d <= 30, n <= 2d, every two-offset list with denominators <= 12 and numerators below them. Reconstructions with a "
+            "denominator 10..12 on 1-2 line stacks at magnification 1 (feature recon:den>=10, ~3 %). Two-step histories on ONE SRRLaser "
+            "object (feature history, ~12 %): every observation of a reconstruction case, then one or two changes of the object "
+            "(a layer of laser.data replaced by a new array of the same shape, cells of a layer or a whole layer edited in place, the "
+            "config replaced or changed through its setters), then every observation again, compared with the model of the NEW stack "
+            "and config")
     trusted = [
         "'integer magnification' means spotsize/(speed*scantime) evaluates to an integer in float64 (DESIGN 6a); the model is given that value",
         "np.round(seconds/scantime) equals round-half-even of the exact quotient of the float values unless that quotient is within 1e-9 of a "
         "tie without being one (such cases are counted undetermined)",
         "np.mean over <= 5 integer-valued float64 layers is within 1e-12 relative of the exact mean",
         "NumPy slicing, np.repeat, .T, np.zeros and slice assignment behave as documented (modelled step by step in PewModel/Srr.lean)",
+        "the offsets a configuration holds are observed through the public `subpixel_offsets` getter (rows [stored, size]); the "
+        "statement of offsets_setter_exact is evaluated on those rows by the driver (`setterExact`), for accepted configurations",
     ]
     assumptions = [
         "layer i of a stack has the shape of layer (i mod 2) (crossed layers, DESIGN 6a)",
         "a configuration the implementation rejects although the model accepts it is not a violation (the property only speaks of accepted "
         "configurations); it is counted under the feature 'impl-rejects-model-accepts'",
+        "history cases change the stack only through the public list `laser.data` (item assignment of a same-shape, same-dtype array, "
+        "or element assignment into a layer) and the configuration only through `laser.config` (assignment of a new SRRConfig, or its "
+        "`subpixel_offsets` / `warmup` setters); every reconstruction is required to follow the stack and config the object holds when "
+        "it is called ('for every stack ... and every accepted configuration')",
+        "config-only cases outside the hypotheses of offsets_setter_exact (empty list, denominator < 1, negative numerator) or whose "
+        "lcm * numerator does not fit 2^60 are counted as hypothesis-excluded, never compared",
     ]
 
     def generate(self, rng, tier):
-        if rng.random() < 0.04:
+        t = rng.random()
+        if t < 0.04:
             # DESIGN 6a: triples whose float quotient is just off an integer are outside "integer magnification";
             # they are run and only reported (feature counts), never compared
             case = gen_srr(rng, max_vox=4000, force_valid=True)
@@ -99,9 +174,84 @@ class C09(Prop):
                     (l0, _), (l1, _) = case["shapes"]
                     case["shapes"] = [[l0, l1 * M + 1], [l1, l0 * M + 2]]
                     return case
+        elif t < 0.26:
+            return self.gen_cfg_only(rng)
+        elif t < 0.38:
+            return self.gen_history(rng)
+        elif t < 0.41:
+            return self.gen_bigden(rng)
         case = gen_srr(rng, max_vox=9000 if tier == "quick" else 16000, force_valid=False)
         case["nel"] = rng.choice([1, 1, 2, 3])
         case["element"] = rng.randrange(case["nel"])
+        return case
+
+    def gen_cfg_only(self, rng):
+        """no stack: one configuration object that is given a history of offset lists"""
+        M = rng.choice([1, 1, 2, 3, 4, 5, 6, 7, 10, 12])
+        spotsize, speed, scantime = int_mag_triple(rng, M)
+        w = rng.choice([0, 0, 1, 3, 50])
+        seconds = w * scantime if rng.random() < 0.7 else (w + rng.choice([0.3, 0.45, 0.1])) * scantime
+        maxden = rng.choice([CFG_MAXDEN, CFG_MAXDEN, CFG_MAXDEN, 12, 9])
+        return {"kind": "cfg", "spotsize": spotsize, "speed": speed, "scantime": scantime, "warmup": seconds, "mag": M,
+                "sets": [gen_cfg_pairs(rng, maxden) for _ in range(rng.choice([1, 2, 4, 6, 8]))],
+                "via": rng.choice(["list", "array"])}
+
+    def gen_bigden(self, rng):
+        """a reconstruction whose offsets have a denominator 10..12: 1-2 lines, magnification 1 (the output grows with lcm^2)"""
+        for _ in range(200):
+            k = rng.choice([1, 2, 2])
+            dens = [rng.choice([10, 11, 12])] + [rng.randint(1, 12) for _ in range(k - 1)]
+            rng.shuffle(dens)
+            pairs = [[rng.randint(0, d - 1) if rng.random() < 0.9 else rng.randint(d, d + 3), d] for d in dens]
+            if rng.random() < 0.3:
+                pairs[0][0] = 0
+            size = math.lcm(*dens)
+            ov = max(o * size // d for o, d in pairs)
+            l0, l1, n = rng.randint(1, 2), rng.randint(1, 2), rng.choice([2, 2, 3])
+            if (l0 * size + ov) * (l1 * size + ov) * n > 30000:
+                continue
+            w = rng.choice([0, 0, 1, 2])
+            spotsize, speed, scantime = int_mag_triple(rng, 1)
+            ex0, ex1 = rng.choice([0, 1, 2]), rng.choice([0, 0, 3])
+            return {"spotsize": spotsize, "speed": speed, "scantime": scantime, "warmup": w * scantime, "pairs": pairs, "mag": 1,
+                    "n": n, "shapes": [[l0, w + l1 + ex0], [l1, w + l0 + ex1]], "short": None, "wmode": "exact", "nel": 1,
+                    "element": 0}
+        raise core.InternalError("could not generate a large-denominator SRR case")
+
+    def gen_history(self, rng):
+        """reconstruct, change the SAME SRRLaser object (layer replaced / edited in place / config changed), reconstruct again"""
+        case = gen_srr(rng, max_vox=3500, force_valid=True)
+        case["nel"] = rng.choice([1, 1, 2])
+        case["element"] = rng.randrange(case["nel"])
+        case["kind"] = "history"
+        M, n = case["mag"], case["n"]
+        (l0, s0), (l1, s1) = case["shapes"]
+        steps = []
+        for _ in range(rng.choice([1, 1, 1, 1, 2])):
+            op = rng.choice(["replace", "replace", "edit", "edit", "config"])
+            i = rng.randrange(n)
+            if op == "replace":
+                steps.append({"op": "replace", "layer": i})
+            elif op == "edit":
+                rows, cols = case["shapes"][i % 2]
+                cells = "all" if rng.random() < 0.3 else [[rng.randrange(rows), rng.randrange(cols)] for _ in range(rng.choice([1, 1, 2, 4]))]
+                steps.append({"op": "edit", "layer": i, "cells": cells})
+            else:
+                weff = round(Fraction(case["warmup"]) / Fraction(case["scantime"]))
+                w2 = rng.randint(0, max(0, weff))  # not more warm-up than before: the stack stays long enough
+                pairs2 = case["pairs"]
+                for _ in range(50):
+                    cand = gen_pairs(rng)
+                    size = math.lcm(*[d for _, d in cand])
+                    p = math.lcm(size, M) // M
+                    ov = max(o * size // d for o, d in cand)
+                    if cand != case["pairs"] and (l0 * M * p + ov) * (l1 * M * p + ov) * n <= 3500:
+                        pairs2 = cand
+                        break
+                steps.append({"op": "config", "via": rng.choice(["object", "setter"]), "pairs": pairs2,
+                              "warmup": w2 * case["scantime"]})
+        case["steps"] = steps
+        case["order"] = rng.choice(["std", "std", "flat-first", "krisskross-first"])
         return case
 
     def targeted(self, tier):
@@ -120,6 +270,36 @@ class C09(Prop):
         yield {**base, "spotsize": 105.0, "mag": 3, "warmup": 0.25, "pairs": [[0, 1]], "shapes": [[2, 3], [1, 7]], "n": 2, "short": "s0"}
         yield {**base, "spotsize": 105.0, "mag": 3, "warmup": 0.25, "pairs": [[0, 1]], "shapes": [[2, 4], [1, 6]], "n": 2, "short": "s1"}
         yield {**base, "warmup": -0.25, "shapes": [[2, 4], [2, 4]], "short": "neg"}
+        # ---- config-only enumerations ("offset lists of any length with denominators 1..d")
+        cbase = {"kind": "cfg", "spotsize": 35.0, "speed": 140.0, "scantime": 0.25, "warmup": 0.5, "mag": 1, "via": "list",
+                 "enumerated": True}
+        singles = [[[num, den]] for den in range(1, CFG_MAXDEN + 1) for num in range(0, 2 * den + 1)]
+        doubles = [[[n1, d1], [n2, d2]] for d1 in range(1, 13) for d2 in range(1, 13) for n1 in range(d1) for n2 in range(d2)]
+        for k, lists in enumerate((singles, doubles)):
+            for j in range(0, len(lists), CFG_BATCH):
+                yield {**cbase, "sets": lists[j:j + CFG_BATCH], "mag": 1 + (j // CFG_BATCH) % 4, "spotsize": 35.0 * (1 + (j // CFG_BATCH) % 4),
+                       "via": "array" if (j // CFG_BATCH) % 2 else "list"}
+        # a few fixed long lists and offsets beyond one pixel
+        yield {**cbase, "sets": [[[0, 1]], [[1, 30], [29, 30], [15, 30], [31, 30]], [[1, 2], [1, 3], [1, 5], [1, 7]],
+                                 [[7, 8], [8, 9], [9, 10], [10, 11]], [[1, 16], [3, 24], [5, 18], [7, 27]]],
+               "spotsize": 105.0, "mag": 3}
+        # ---- two-step histories on one object
+        hbase = {**base, "kind": "history", "spotsize": 70.0, "mag": 2, "warmup": 0.25, "pairs": [[1, 3], [1, 2]],
+                 "shapes": [[3, 7], [2, 9]], "n": 4, "nel": 2, "element": 1, "order": "std"}
+        yield {**hbase, "steps": [{"op": "replace", "layer": 2}]}
+        yield {**hbase, "steps": [{"op": "replace", "layer": 1}], "order": "flat-first"}
+        yield {**hbase, "steps": [{"op": "edit", "layer": 0, "cells": [[0, 1]]}]}
+        yield {**hbase, "steps": [{"op": "edit", "layer": 3, "cells": "all"}], "order": "krisskross-first"}
+        yield {**hbase, "steps": [{"op": "config", "via": "setter", "pairs": [[0, 2], [1, 2]], "warmup": 0.0}]}
+        yield {**hbase, "steps": [{"op": "config", "via": "object", "pairs": [[1, 2]], "warmup": 0.25}]}
+        yield {**hbase, "steps": [{"op": "config", "via": "setter", "pairs": [[2, 3]], "warmup": 0.25}, {"op": "replace", "layer": 0}]}
+        yield {**base, "kind": "history", "shapes": [[1, 1], [1, 1]], "steps": [{"op": "replace", "layer": 0}], "order": "std"}
+        yield {**base, "kind": "history", "shapes": [[1, 2], [2, 1]], "n": 3, "steps": [{"op": "edit", "layer": 2, "cells": [[0, 0]]}],
+               "order": "std"}
+        # ---- reconstruction with denominators >= 10 (1 line, magnification 1)
+        yield {**base, "pairs": [[3, 10]], "shapes": [[1, 1], [1, 1]]}
+        yield {**base, "pairs": [[0, 1], [5, 11]], "shapes": [[1, 2], [2, 1]], "n": 3}
+        yield {**base, "pairs": [[7, 12], [1, 4]], "shapes": [[2, 3], [1, 2]]}
 
     def search_extra(self, tier):
         """small-scope enumeration used by the failing-input search: two-layer stacks, mag 1..2, all small shapes"""
@@ -154,9 +334,13 @@ class C09(Prop):
         return layers, enc
 
     def evaluate(self, case, ctx):
-        from pewlib.srr.config import SRRConfig
         from pewlib.srr.srr import SRRLaser
 
+        kind = case.get("kind", "recon")
+        if kind == "cfg":
+            return self.eval_cfg(case, ctx)
+        if kind not in ("recon", "history"):
+            raise core.InternalError(f"unknown case kind {kind}")
         names = NAMES[:case["nel"]]
         e = case["element"]
         layers, enc = self.build_layers(case)
@@ -178,6 +362,21 @@ class C09(Prop):
             raise core.InternalError("generator: magnification is not the intended float integer")
         cfg = make_srr_cfg(case)
         laser = SRRLaser(layers, config=cfg)
+        if kind == "history":
+            return self.eval_history(case, ctx, laser, layers, enc)
+        st = self.eval_state(case, ctx, laser, cfg, enc)
+        return outcome(st["impl"], st["model"], st["spec"], spec_ok=st["spec_ok"], model_ok=st["model_ok"],
+                       undetermined=st["undet"], features=st["feats"], note=st["note"])
+
+    def eval_state(self, case, ctx, laser, cfg, enc, order="std"):
+        """every observation of the property on `laser` in its CURRENT state, against the model/specification of the stack
+        `enc` and the configuration described by `case` (spotsize, speed, scantime, warmup, pairs). `cfg` is the configuration
+        object whose getters / round trip are observed."""
+        from pewlib.srr.config import SRRConfig
+
+        names = NAMES[:case["nel"]]
+        e = case["element"]
+        mag = float_mag(case)
         # the configuration as the implementation states it (public getters); the geometric model is evaluated for it
         observed = None
         try:
@@ -189,12 +388,25 @@ class C09(Prop):
         except Exception:
             observed = None
         rep = ctx.driver.call("c09.srr", cfg=srr_cfg_json(case), mag=rat(mag), nel=case["nel"], layers=enc, observed=observed)
+        # the statement of offsets_setter_exact on the rows the configuration reports (evaluated by the driver)
+        setter_exact = None
+        try:
+            rows = int_rows(cfg.subpixel_offsets)
+        except Exception:
+            rows = None
+        if rows is not None and pairs_ok(case["pairs"]):
+            srep = ctx.driver.call("c09.config", cfg=srr_cfg_json(case), mag=rat(mag), sets=[{"pairs": case["pairs"], "observed": rows}])
+            setter_exact = srep["sets"][0]["observed_exact"]
 
         # ---- implementation, observed at check_config_valid / get / krisskross and the config's array round trip
         valid = bool(laser.check_config_valid(laser.config))
         impl = {"valid": valid}
         if valid:
             try:
+                if order == "flat-first":
+                    laser.get(flat=True)
+                elif order == "krisskross-first":
+                    laser.krisskross()
                 recon = laser.get()
                 impl["recon"] = enc3(recon, names)
                 impl["krisskross"] = enc3(laser.krisskross(), names)
@@ -208,6 +420,7 @@ class C09(Prop):
                 impl["flat_element"] = {"shape": list(fe.shape), "data": [[float(v) for v in row] for row in fe]}
             except Exception as ex:
                 impl["recon"] = {"raises": type(ex).__name__, "msg": str(ex)[:200]}
+        impl["offsets_exact"] = setter_exact
         impl["layers"] = []
         for i in range(case["n"]):
             try:
@@ -257,7 +470,8 @@ class C09(Prop):
 
         layers_spec_ok = core.canon(impl["layers"]) == core.canon(spec["layers"])
         rt_same = impl["original"] is not None and core.canon(impl["roundtrip"]) == core.canon(impl["original"])
-        spec_ok = recon_ok(spec["recon"], rep["flat_spec"]) and layers_spec_ok and rt_same
+        spec_ok = recon_ok(spec["recon"], rep["flat_spec"]) and layers_spec_ok and rt_same and not (valid and setter_exact is False)
+        spec["offsets_exact"] = model["offsets_exact"] = None if setter_exact is None else True
         model_ok = (recon_ok(model["recon"], rep["flat_model"]) and core.canon(impl["layers"]) == core.canon(model["layers"])
                     and cfg_ok(impl["roundtrip"], rep["roundtrip_model"]) and cfg_ok(impl["original"], rep["roundtrip_spec"])
                     and not (valid and rep["valid"] is not True))
@@ -291,11 +505,205 @@ class C09(Prop):
                 feats_rej = {"impl-rejects-model-accepts"}
             else:
                 feats_rej = {"rejected:" + str(case.get("short"))}
-            out = outcome(impl, model, spec, spec_ok=spec_ok, model_ok=model_ok, undetermined=undet, features=feats_rej, note=note)
-            return out
-        return outcome(impl, model, spec, spec_ok=spec_ok, model_ok=model_ok, undetermined=undet, features=feats, note=note)
+            feats = feats_rej
+        elif feats and max(d for _, d in case["pairs"]) >= 10:
+            feats.add("recon:den>=10")
+        return {"impl": impl, "model": model, "spec": spec, "spec_ok": spec_ok, "model_ok": model_ok, "undet": undet,
+                "feats": feats, "note": note, "valid": valid}
+
+    # ------------------------------------------------------------------ two-step history on one object
+    def eval_history(self, case, ctx, laser, layers, enc):
+        from pewlib.srr.config import SRRConfig
+
+        names = NAMES[:case["nel"]]
+        order = case.get("order", "std")
+        first = self.eval_state(case, ctx, laser, laser.config, enc, order=order)
+        # ---- the changes, on the object and (independently) on the abstract description
+        n = case["n"]
+        total = sum(L["rows"] * L["cols"] for L in enc)
+        shift = case["nel"] * total  # fresh tokens: every changed sample gets a value no other sample has
+        enc2 = copy.deepcopy(enc)
+        case2 = dict(case)
+        hfeats = set()
+        for k, stp in enumerate(case.get("steps", [])):
+            delta = (k + 1) * shift
+            op = stp["op"]
+            if op in ("replace", "edit"):
+                i = stp["layer"] % n
+                L = enc2[i]
+                if op == "replace" or stp["cells"] == "all":
+                    cells = [[r, c] for r in range(L["rows"]) for c in range(L["cols"])]
+                else:
+                    cells = [[r % L["rows"], c % L["cols"]] for r, c in stp["cells"]]
+                    cells = [list(x) for x in sorted({tuple(x) for x in cells})]
+                for r, c in cells:
+                    L["data"][r * L["cols"] + c] = [v + delta for v in L["data"][r * L["cols"] + c]]
+                if op == "replace":
+                    old = laser.data[i]
+                    new = np.empty(old.shape, dtype=old.dtype)
+                    for nm in names:
+                        new[nm] = old[nm] + float(delta)
+                    laser.data[i] = new
+                    hfeats.add("history:replace-layer")
+                else:
+                    for nm in names:
+                        for r, c in cells:
+                            laser.data[i][nm][r, c] += float(delta)
+                    hfeats.add("history:edit-in-place")
+                hfeats.add("history:last-layer" if i == n - 1 else ("history:first-layer" if i == 0 else "history:inner-layer"))
+            elif op == "config":
+                case2["pairs"] = [list(q) for q in stp["pairs"]]
+                case2["warmup"] = stp["warmup"]
+                case2["wmode"] = "exact"
+                if stp["via"] == "object":
+                    laser.config = make_srr_cfg(case2)
+                else:
+                    laser.config.subpixel_offsets = [tuple(q) for q in case2["pairs"]]
+                    laser.config.warmup = case2["warmup"]
+                hfeats.add("history:config-" + stp["via"])
+            else:
+                raise core.InternalError(f"unknown history step {op}")
+        second = self.eval_state(case2, ctx, laser, laser.config, enc2, order=order)
+        impl = {"first": first["impl"], "second": second["impl"]}
+        model = {"first": first["model"], "second": second["model"]}
+        spec = {"first": first["spec"], "second": second["spec"]}
+        feats = set()
+        if first["valid"] and second["valid"] and "data" in first["impl"].get("recon", {}) and "data" in second["impl"].get("recon", {}):
+            feats = {"history", f"history:order-{order}", f"history:steps{len(case.get('steps', []))}"} | hfeats
+            feats |= {f for f in second["feats"] if f.startswith(("mag", "layers", "elements"))}
+        elif not (first["valid"] and second["valid"]):
+            feats = {"history:rejected"}
+        return outcome(impl, model, spec, spec_ok=first["spec_ok"] and second["spec_ok"],
+                       model_ok=first["model_ok"] and second["model_ok"], undetermined=first["undet"] or second["undet"],
+                       features=feats, note=second["note"])
+
+    # ------------------------------------------------------------------ the configuration alone
+    def eval_cfg(self, case, ctx):
+        from pewlib.srr.config import SRRConfig
+
+        sets = case["sets"]
+        if not sets or not all(pairs_ok(ps) for ps in sets):
+            # outside the hypotheses of offsets_setter_exact / srrconfig_roundtrip (or beyond int64): nothing is claimed
+            return outcome(None, None, None, spec_ok=True, model_ok=True, undetermined=True, hyp=False, features=[])
+        mag = float_mag(case)
+        if mag != float(case["mag"]):
+            raise core.InternalError("generator: magnification is not the intended float integer")
+
+        def give(ps):
+            return np.array(ps) if case.get("via") == "array" else [tuple(q) for q in ps]
+
+        def obs(c):
+            o = {"params": [rat(float(c.spotsize)), rat(float(c.speed)), rat(float(c.scantime))], "warmup": float(c.warmup)}
+            so = c.subpixel_offsets
+            o["subpixel_offsets"] = int_rows(so) if int_rows(so) is not None else {"not-integer-rows": np.asarray(so).tolist()}
+            spp = c.subpixels_per_pixel
+            o["subpixels_per_pixel"] = int(spp) if float(spp).is_integer() else float(spp)
+            return o
+
+        impl_sets, observed = [], []
+        cfg = None
+        for k, ps in enumerate(sets):
+            try:
+                if k == 0:
+                    cfg = SRRConfig(spotsize=case["spotsize"], speed=case["speed"], scantime=case["scantime"], warmup=case["warmup"],
+                                    subpixel_offsets=give(ps))
+                else:
+                    cfg.subpixel_offsets = give(ps)  # the setter alone, on the same object
+                o = obs(cfg)
+                arr = cfg.to_array()
+                o["array_offsets"] = int_rows(arr["subpixel_offsets"])
+                o["roundtrip"] = obs(SRRConfig.from_array(arr))
+            except Exception as ex:
+                if cfg is None:
+                    raise core.InternalError(f"SRRConfig could not be constructed: {ex!r}")
+                o = {"raises": type(ex).__name__, "msg": str(ex)[:200]}
+            impl_sets.append(o)
+            rows = o.get("subpixel_offsets")
+            observed.append(rows if isinstance(rows, list) else None)
+        cj = {"spotsize": rat(case["spotsize"]), "speed": rat(case["speed"]), "scantime": rat(case["scantime"]), "warmup": rat(case["warmup"])}
+        rep = ctx.driver.call("c09.config", cfg=cj, mag=rat(mag), sets=[{"pairs": ps, "observed": ob} for ps, ob in zip(sets, observed)])
+
+        def view(j, spp):
+            return {"params": [j["spotsize"], j["speed"], j["scantime"]], "warmup": j["warmup_seconds"],
+                    "subpixel_offsets": j["subpixel_offsets"], "subpixels_per_pixel": spp}
+
+        def agrees(o, v):
+            return (isinstance(o, dict) and "raises" not in o and o["params"] == v["params"] and fclose(o["warmup"], unrat(v["warmup"]))
+                    and o["subpixel_offsets"] == v["subpixel_offsets"] and o["subpixels_per_pixel"] == v["subpixels_per_pixel"])
+
+        spec_ok = model_ok = True
+        model_sets, spec_sets = [], []
+        feats = {"cfg-only", "cfg-only:via-" + str(case.get("via", "list")), f"cfg-only:mag{rep['mag']}"}
+        if case.get("enumerated"):
+            feats.add("cfg-only:enumerated")
+        if len(sets) > 1:
+            feats.add("cfg-only:setter-history")
+        for ps, o, r in zip(sets, impl_sets, rep["sets"]):
+            if not r["hyp"]:
+                raise core.InternalError("pairs_ok and the driver disagree on the hypothesis")
+            mv, rv = view(r["config"], r["spp"]), view(r["roundtrip_model"], r["spp_roundtrip"])
+            model_sets.append({"state": mv, "roundtrip": rv})
+            spec_sets.append({"offset_fractions": r["spec_fractions"], "offsets_exact": True, "roundtrip": "unchanged"})
+            ok = "raises" not in o
+            # specification: stored/size = offset/denominator exactly (offsets_setter_exact, evaluated by the driver on the reported
+            # rows), the array form holds the same rows, and the configuration survives the round trip unchanged
+            s_ok = (ok and r["observed_exact"] is True and o["array_offsets"] == o["subpixel_offsets"]
+                    and core.canon(o["roundtrip"]) == core.canon({k: v for k, v in o.items() if k not in ("array_offsets", "roundtrip")}))
+            m_ok = ok and agrees(o, mv) and agrees(o["roundtrip"], rv)
+            o["offsets_exact"] = r["observed_exact"]
+            spec_ok, model_ok = spec_ok and s_ok, model_ok and m_ok
+            dens = [d for _, d in ps]
+            feats |= {f"cfg-only:len{len(ps)}", "cfg-only:den>=10" if max(dens) >= 10 else "cfg-only:den<=9",
+                      "cfg-only:first-zero" if ps[0][0] == 0 else "cfg-only:first-nonzero"}
+            if max(dens) >= 20:
+                feats.add("cfg-only:den>=20")
+            if len(set(dens)) > 1:
+                feats.add("cfg-only:mixed-denominators")
+            if any(o_ >= d for o_, d in ps):
+                feats.add("cfg-only:offset>=pixel")
+            if r["config"]["size"] not in dens:
+                feats.add("cfg-only:lcm-above-every-denominator")
+            if r["spp"] != r["config"]["size"]:
+                feats.add("cfg-only:spp!=size")
+        margin = unrat(rep["warmup_margin"])
+        undet = 0 < margin < Fraction(1, 10**9)
+        return outcome({"sets": impl_sets}, {"sets": model_sets}, {"sets": spec_sets}, spec_ok=spec_ok, model_ok=model_ok,
+                       undetermined=undet, features=feats)
+
 
     def shrink(self, case):
+        if case.get("kind") == "cfg":
+            sets = case["sets"]
+            if len(sets) > 1:
+                for k in range(len(sets)):
+                    yield {**case, "sets": [sets[k]]}
+                yield {**case, "sets": sets[:len(sets) // 2]}
+                yield {**case, "sets": sets[len(sets) // 2:]}
+                for k in range(len(sets)):
+                    yield {**case, "sets": sets[:k] + sets[k + 1:]}
+            for k, ps in enumerate(sets):
+                if len(ps) > 1:
+                    for j in range(len(ps)):
+                        yield {**case, "sets": sets[:k] + [ps[:j] + ps[j + 1:]] + sets[k + 1:]}
+                for j, (o, d) in enumerate(ps):
+                    for o2, d2 in ((o - d, d), (o // 2, d), (o - 1, d)):
+                        if 0 <= o2 < o:
+                            yield {**case, "sets": sets[:k] + [ps[:j] + [[o2, d2]] + ps[j + 1:]] + sets[k + 1:]}
+            if case["warmup"] != 0:
+                yield {**case, "warmup": 0.0}
+            if case.get("via") == "array":
+                yield {**case, "via": "list"}
+            return
+        if case.get("kind") == "history":
+            steps = case.get("steps", [])
+            if len(steps) > 1:
+                for k in range(len(steps)):
+                    yield {**case, "steps": steps[:k] + steps[k + 1:]}
+            if case.get("order", "std") != "std":
+                yield {**case, "order": "std"}
+            for k, stp in enumerate(steps):
+                if stp["op"] == "edit" and stp["cells"] != "all" and len(stp["cells"]) > 1:
+                    yield {**case, "steps": steps[:k] + [{**stp, "cells": stp["cells"][:1]}] + steps[k + 1:]}
         if case["n"] > 2:
             yield {**case, "n": case["n"] - 1}
         if case["nel"] > 1:
